@@ -230,8 +230,15 @@ def run(check, repo, tier):
     check.rule("R3", "case-insensitive classification; prefix tables contain ok / error, alarm, !!")
     check.rule("R4", "disconnect(wait=True) disconnects only after: not printing, clear, priority queue empty; cancel before disconnect")
     check.rule("R5", "SerialWriter/SocketWriter.write forward the same bytes once")
+    check.rule("R6", "a reading requested by a statement is available when its write() returns: an 'ok ...' report is parsed before the acknowledgement is "
+                     "signalled, every device line updates the readings again (per-line de-duplication), earlier readings are kept (rules R1, R3, R4 of C18)")
     P = Program(repo)
     n = write_rule(check, P) + callback_rules(check, P) + disconnect_rule(check, P) + delegation_rule(check, P)
+    from . import c18
+    from .c13 import _Remap
+    remap = _Remap(check, {"R1": "R6", "R3": "R6", "R4": "R6"})
+    remap.floor = lambda cond, message: check.floor(cond, message.replace("C18.", "C16<-C18."))
+    n += c18.must_parse(remap, P) + c18.dispatch_rule(remap, P)
     check.analysed = {"program": P.stats(), "abstract_paths": n, "entries": ["PrintrunWriter.write", "_on_device_message", "_on_printrun_error", "disconnect", "SerialWriter.write", "SocketWriter.write"]}
     check.sample({"entry": "PrintrunWriter.write", "order_required": ["_ack_event.clear", "device.send", "_ack_event.wait", "_device_error check"]})
     check.coverage["exhaustive"] = True
